@@ -597,7 +597,7 @@ func c35Offenders(c *Ctx, f *ssa.Function, key string) {
 				}
 			}
 			c.Check(bad == "" && marked, "C35.sets", key+" · culprit keys", call.Pos(), "culprit and fault keys (taken together from "+srcDesc+") are added exactly when not yet offenders, and then marked", "offender keys: "+bad)
-			c.OK("C35.sets", key+" · fault keys", call.Pos(), "covered by the combined key list "+srcDesc)
+			c.OK("C35.sets", key+" · fault keys", call.Pos(), "covered by the combined key list %s", srcDesc)
 			apps["culprit"], apps["fault"] = nil, nil
 			goto sorted
 		}
